@@ -3,7 +3,7 @@
    Model: Model/GC.v (collect() call by call); normalize_path / marker fallback / constants are
    REGENERATED from garbage_collector.py and transaction.py (Gen/GenNorm.v) on every run. *)
 From Coq Require Import ZArith String Ascii List Bool.
-Require Import DS.Model.PyStr DS.Gen.GenNorm DS.Model.GC DS.Model.GCHist DS.Proofs.GCNormProofs DS.Proofs.GCProofs DS.Proofs.GCLiveProofs DS.Proofs.GCHistProofs.
+Require Import DS.Model.PyStr DS.Gen.GenNorm DS.Model.GC DS.Model.GCHist DS.Proofs.GCNormProofs DS.Proofs.GCAcceptProofs DS.Proofs.GCProofs DS.Proofs.GCLiveProofs DS.Proofs.GCHistProofs.
 Import ListNotations.
 Open Scope string_scope.
 Open Scope Z_scope.
@@ -67,17 +67,17 @@ Theorem C05_append_commits : forall (h : hstate) (sid : Z) (name : string) (sp :
 Proof. exact op_append_valid. Qed.
 Print Assumptions C05_append_commits.
 
-(* A path that is not literally the key of an existing file is never committed: a commit naming a file under an alias
-   spelling ("data//f", "data/./f", "data/x/../f": the file data/f only to a filesystem) leaves the table unchanged, whatever
-   else is true of the table -- the model has no notion of a schema, so the refusal cannot depend on one.  Together with
-   C05_history: no retained snapshot ever references a file under a spelling the listing cannot produce. *)
-Theorem C05_alias_never_committed : forall (h : hstate) (sid : Z) (newdata : list (string * Z)) (newmans : list (string * list string * Z))
-    (kept : list string) (lname : string) (lmt : Z) (expire : option (Z -> bool)) (mn : string) (es : list string) (mt : Z) (e : string),
-  In (mn, es, mt) newmans -> In e es ->
-  has_key (resolve e) (h_store h) = false -> str_mem (resolve e) (map (fun q => data_key (fst q)) newdata) = false ->
-  hstep h (HCommit sid newdata newmans kept lname lmt expire) = h.
-Proof. exact commit_alias_rejected. Qed.
-Print Assumptions C05_alias_never_committed.
+(* The writer-side fact the two theorems above assume about manifest entries (wf_store: a data file lives under data/) is what
+   Transaction.append_files demands of every file it queues: append_accepts_path is REGENERATED from the source on every run
+   (the path guards applied unconditionally to every file of the call; posixpath.normpath is a parameter) and implies it, for
+   every normpath.  The history machine's commit step (GCHist.valid_commit) accepts an entry exactly by this predicate, so
+   C05_history's invariant is re-tied to the source text.  On a tree whose append_files has no such guard the generated
+   predicate does not imply it (a data file accepted at metadata/manifests/f or metadata/inflight/f.inflight is deleted by the
+   manifest sweep / the abandoned-marker sweep while snapshots reference it), and this theorem and C05_history do not compile. *)
+Theorem C05_acceptance_regenerated : forall (normpath : string -> string) (e : string),
+  append_accepts_path normpath e = true -> wf_data_ref e.
+Proof. exact accepts_under_data. Qed.
+Print Assumptions C05_acceptance_regenerated.
 
 (* Non-vacuity: a table located at "data" (the location that made the unrepaired normalisation delete
    every live file) with two retained snapshots sharing a manifest, an orphan data file, an orphan
@@ -130,12 +130,16 @@ Example C05_history_nonvacuous :
        ["metadata/inflight/t.inflight"; "data/t"; "data/b"; "metadata/manifests/m2"; "metadata/manifests/l2"; "data/a"; "metadata/manifests/m1"].
 Proof. split; vm_compute; reflexivity. Qed.
 
-(* Non-vacuity of C05_alias_never_committed: after the first commit of ex_ops the file data/a exists; a second commit naming it
-   as "data//a" (or "data/./a", "data/x/../a") changes nothing, while the canonical spellings commit. *)
-Definition ex_h1 : hstate := run_hist [HCommit 1 [("a", 1000)] [("m1", ["/data/a"], 1000)] [] "l1" 1000 None].
-Example C05_alias_nonvacuous :
-  hstep ex_h1 (HCommit 2 [] [("m2", ["data//a"], 1000)] [] "l2" 1000 None) = ex_h1
-  /\ hstep ex_h1 (HCommit 2 [] [("m2", ["data/./a"], 1000)] [] "l2" 1000 None) = ex_h1
-  /\ hstep ex_h1 (HCommit 2 [] [("m2", ["data/x/../a"], 1000)] [] "l2" 1000 None) = ex_h1
+(* Non-vacuity of C05_acceptance_regenerated: the three canonical spellings of a file under data/ (and below it) are accepted;
+   a path in a directory the library manages or sweeps, elsewhere in the table, or at its root is not -- and after the first
+   commit of ex_ops a second commit naming an existing file outside data/ (or data/a under an alias spelling) changes nothing. *)
+Definition ex_h1 : hstate := run_hist [HCommit 1 [("a", 1000)] [("m1", ["/data/a"], 1000)] [] "l1" 1000 None; HPlant "metadata/manifests/x.parquet" false 1000].
+Example C05_acceptance_nonvacuous :
+  map accepts ["/data/a"; "data/a"; "//data/a"; "data/sub/a"] = [true; true; true; true]
+  /\ map accepts ["metadata/manifests/x.parquet"; "/metadata/inflight/x.inflight"; "metadata/x"; ".locks/x"; "other/x"; "x"; ""; "data"; "../data/x"]
+     = [false; false; false; false; false; false; false; false; false]
+  /\ has_key "metadata/manifests/x.parquet" (h_store ex_h1) = true
+  /\ hstep ex_h1 (HCommit 2 [] [("m2", ["metadata/manifests/x.parquet"], 1000)] [] "l2" 1000 None) = ex_h1
+  /\ hstep ex_h1 (HCommit 2 [] [("m2", ["data//a"], 1000)] [] "l2" 1000 None) = ex_h1
   /\ h_cur (hstep ex_h1 (HCommit 2 [] [("m2", ["//data/a"], 1000)] [] "l2" 1000 None)) = Some 2.
 Proof. repeat split; vm_compute; reflexivity. Qed.
